@@ -58,7 +58,8 @@ def _read(repo, rel, cache):
 
 
 def parse_template(path):
-    """-> list of ('text', line_no, text) | ('dir', line_no, kind, relpath, item_path, subs)"""
+    """-> list of ('text', line_no, text) | ('dir', line_no, kind, relpath, item_path, subs)
+    `//@ include <path relative to /verif>` inlines another template (shared between units)"""
     out = []
     with open(path, encoding='utf-8') as f:
         lines = f.read().split('\n')
@@ -66,6 +67,13 @@ def parse_template(path):
     while i < len(lines):
         ln = lines[i]
         s = ln.strip()
+        if s.startswith('//@ include '):
+            inc = os.path.join(os.path.dirname(os.path.dirname(os.path.abspath(__file__))), s[len('//@ include '):].strip())
+            out.append(('text', i + 1, '// ---- begin include %s' % s[len('//@ include '):].strip()))
+            out.extend(parse_template(inc))
+            out.append(('text', i + 1, '// ---- end include'))
+            i += 1
+            continue
         if s.startswith('//@ fn ') or s.startswith('//@ item '):
             kind = 'fn' if s.startswith('//@ fn ') else 'item'
             spec = s[len('//@ ' + kind):].strip()
